@@ -2,7 +2,7 @@
    of abs_diff and Pl_PNGFilter::PaethPredictor (libqpdf/Pl_PNGFilter.cc), of the cast helpers of Pl_Base64.cc, and
    the constants read out of Pl_LZWDecoder::handleCode, against Filters/Filters.v. *)
 From QV Require Import Base.Bytes Filters.Filters.
-From Coq Require Import Lia.
+From Coq Require Import Lia ZifyBool.
 From QV Require Import Base.LeafSem Base.LeafSemFacts Gen.Leaf.
 Local Open Scope N_scope.
 
@@ -18,14 +18,15 @@ Qed.
 Lemma paeth_src_lemma : forall a b c, a < 256 -> b < 256 -> c < 256 ->
   lf_PaethPredictor (Z.of_N a) (Z.of_N b) (Z.of_N c) = Z.of_N (paeth a b c).
 Proof.
-  intros a b c Ha Hb Hc. unfold lf_PaethPredictor, paeth.
-  rewrite (lf_wrap_s_32_small (Z.of_N a + Z.of_N b)) by lia.
-  rewrite (lf_wrap_s_32_small (Z.of_N a + Z.of_N b - Z.of_N c)) by lia.
-  rewrite !abs_diff_src_lemma by lia.
-  cbv zeta.
-  destruct ((abs_diff (Z.of_N a + Z.of_N b - Z.of_N c) (Z.of_N a) <=? abs_diff (Z.of_N a + Z.of_N b - Z.of_N c) (Z.of_N b))%Z &&
-            (abs_diff (Z.of_N a + Z.of_N b - Z.of_N c) (Z.of_N a) <=? abs_diff (Z.of_N a + Z.of_N b - Z.of_N c) (Z.of_N c))%Z); [reflexivity|].
-  destruct (abs_diff (Z.of_N a + Z.of_N b - Z.of_N c) (Z.of_N b) <=? abs_diff (Z.of_N a + Z.of_N b - Z.of_N c) (Z.of_N c))%Z; reflexivity.
+  (* by the meaning of the comparisons, not by the shape of the conditionals: an equivalent rewrite of the C++
+     (another tie-break that selects the same value) keeps this proof *)
+  intros a b c Ha Hb Hc. unfold lf_PaethPredictor, paeth, lf_abs_diff, abs_diff. cbv zeta.
+  repeat match goal with
+         | |- context [lf_wrap_s 32 ?x] => rewrite (lf_wrap_s_32_small x) by (repeat destruct (_ >? _)%Z; lia)
+         end.
+  repeat match goal with
+         | |- context [if ?t then _ else _] => destruct t eqn:?
+         end; lia.
 Qed.
 
 (* the same for every int for which no intermediate result leaves `int` (|a|,|b|,|c| < 2^28) *)
@@ -36,10 +37,13 @@ Lemma paeth_src_wide_lemma : forall a b c,
    if (abs_diff p a <=? abs_diff p b) && (abs_diff p a <=? abs_diff p c) then a
    else if abs_diff p b <=? abs_diff p c then b else c)%Z.
 Proof.
-  intros a b c Ha Hb Hc. unfold lf_PaethPredictor.
-  rewrite (lf_wrap_s_32_small (a + b)) by lia.
-  rewrite (lf_wrap_s_32_small (a + b - c)) by lia.
-  rewrite !abs_diff_src_lemma by lia. reflexivity.
+  intros a b c Ha Hb Hc. unfold lf_PaethPredictor, lf_abs_diff, abs_diff. cbv zeta.
+  repeat match goal with
+         | |- context [lf_wrap_s 32 ?x] => rewrite (lf_wrap_s_32_small x) by (repeat destruct (_ >? _)%Z; lia)
+         end.
+  repeat match goal with
+         | |- context [if ?t then _ else _] => destruct t eqn:?
+         end; lia.
 Qed.
 
 (* Pl_Base64.cc: to_c, to_uc, to_i are the conversions the model leaves implicit; identities on the values they get *)
